@@ -40,6 +40,11 @@ func (er *ErrorReader) Read(b []byte) (n int, err error) {
 	n, err = io.ReadFull(er.Reader, b)
 	if err != nil {
 		er.Err = err
+		// b is usually the shared scratch buffer: do not let the caller
+		// decode bytes of an earlier read (or half of this one) as a value.
+		for i := range b {
+			b[i] = 0
+		}
 	}
 	return n, err
 }
